@@ -239,7 +239,7 @@ def run(R, ctx):
     R.explanation = (
         "Guard-before-act and contradiction rules on typed THIR for the three mechanisms the property anchors: side-effect analysis before "
         "anything evaluated is dropped, multi-value analysis before a sub-expression is hoisted, order-preserving accumulation of kept "
-        "expressions; plus visitor reachability and the default-rule list. Behavioural equivalence of the rewrites is not decided."
+        "expressions; plus visitor reachability and the default-rule list. Behavioural equivalence of the rewrites is not decided. Decision / transfer functions among these are decided by finite-domain evaluation of their typed tree (sa/peval.py): every point of a small abstract domain is evaluated and compared with the reference; nothing is sampled and no program input exists."
     )
     R.assumptions += ["has_side_effects / can_return_multiple_values / evaluate are trusted as analyses here; their skeleton is checked under C08",
                       "guard polarity is checked for the if/else and `!guard` idioms the repository uses"]
